@@ -70,7 +70,7 @@ CHECKS = {
     "C08": ("exploration",
             "property-based testing (Hypothesis): routing / exactly-once / in-order oracle from five-channel handshake logs plus per-slave memory scoreboards, with independent-channel master agents and multi-accept slave agents",
             "AXILiteArbiter, AXILiteDecoder, AXILiteInterconnectShared, AXILiteCrossbar and point-to-point, 1..3 x 1..3, disjoint maps decoded by the real SoCRegion.decoder. Masters issue programs through five independently scheduled channels (AW before/with W, B/R back-pressure, garbage while idle; several outstanding through the arbiter alone), slaves pre-assert or withhold ready, queue up to Q requests, answer with schedule-driven latency. Checked: each accepted write (address, data, strobe) and read address appears at exactly one slave - the one decoding it; each response reaches the issuing master exactly once, in order, with the right data; no stray responses; all masters are served; hold rule on every DUT-driven channel; final slave memories equal the model.",
-            "Trusted: Migen's simulator, harness agents. Known findings excluded by construction and replayed: AXILiteDecoder with more than one outstanding request per direction, and W before AW. The AXI4 twins (AXIArbiter/AXIDecoder/AXIInterconnectShared/AXICrossbar) share the structure but are not yet exercised.",
+            "Trusted: Migen's simulator, harness agents. Known findings excluded by construction and replayed: AXILiteDecoder with more than one outstanding request per direction, and W before AW. The AXI4 twins (AXIArbiter, AXIDecoder, AXIInterconnectShared, AXICrossbar, point-to-point) are exercised by four further sub-checks (checks/c08_axi.py) with INCR/FIXED/WRAP bursts of 1..16 beats, ids, up to 4 outstanding bursts per direction, byte-accurate memory slaves, an exhaustive sweep of lock windows, and blocked-channel progress cases; their decoder/arbiter share the AXI-Lite findings (W ahead of AW, requests for another slave while locked), excluded by construction and replayed; user/dest signals, AXI3 WID and the ignored `register` argument are not covered.",
             "DESIGN.md section 4 / C08"),
     "C01": ("translation_validation",
             "differential property-based testing (Hypothesis): generated FHDL programs executed by the repository's simulator and, from the emitted text, by an IEEE 1364-2005 evaluator written for the emitted subset; lock-step comparison of every register, comb signal and memory word",
